@@ -64,13 +64,48 @@ fn numbers(e: &Expression, out: &mut Vec<u64>) {
     }
 }
 
+thread_local! {
+    /// the source text of the case being run (for `span_number`)
+    static SOURCE: std::cell::RefCell<String> = std::cell::RefCell::new(String::new());
+}
+
+/// The only number literal in the SOURCE TEXT covered by the given range, if there is
+/// exactly one (third audit: the fall-back of `the_number`, so that an IR rewrite that
+/// drops or duplicates a literal in the lifted expression - `x += 3` kept as a compound
+/// node, a folded constant - does not turn the id into `?` and the case into a false alarm;
+/// the id of a leaf is a property of the source statement, not of the lifted expression).
+fn span_number(range: &std::ops::Range<usize>) -> Option<String> {
+    SOURCE.with(|s| {
+        let s = s.borrow();
+        let text = s.get(range.start..range.end)?;
+        let mut found: Vec<String> = Vec::new();
+        let mut cur = String::new();
+        let mut prev_ident = false;
+        for ch in text.chars().chain(std::iter::once(' ')) {
+            if ch.is_ascii_digit() && (!cur.is_empty() || !prev_ident) {
+                cur.push(ch);
+            } else {
+                if !cur.is_empty() {
+                    found.push(std::mem::take(&mut cur));
+                }
+                prev_ident = ch.is_ascii_alphanumeric() || ch == '_';
+            }
+        }
+        if found.len() == 1 {
+            found.pop()
+        } else {
+            None
+        }
+    })
+}
+
 fn the_number(e: &Expression) -> String {
     let mut v = Vec::new();
     numbers(e, &mut v);
     if v.len() == 1 {
         v[0].to_string()
     } else {
-        "?".to_string()
+        span_number(&e.meta().file_location()).unwrap_or_else(|| "?".to_string())
     }
 }
 
@@ -242,12 +277,59 @@ fn blocks_of(cfg: &Cfg) -> Vec<Blk> {
             Blk {
                 index: b.index(),
                 depth: b.loop_depth(),
-                items: b.iter().map(item_of).filter(|i| !matches!(i, Item::Phi)).collect(),
+                // third audit: the phi statements stay in the list (they used to be filtered out here, so
+                // that "phis first, branch last" after into_ssa was never looked at)
+                items: b.iter().map(item_of).collect(),
                 preds,
                 succs,
             }
         })
         .collect()
+}
+
+/// Third audit: the accessors of the property text that nothing used to read - `Cfg::len`,
+/// `Cfg::entry_block`, `Cfg::get_basic_block`, `BasicBlock::in_loop`, `BasicBlock::len` /
+/// `is_empty` - against what the block iterator shows.  `ok` or the list of mismatches.
+fn api_check(cfg: &Cfg) -> String {
+    let mut bad: Vec<String> = Vec::new();
+    let n = cfg.iter().count();
+    if cfg.len() != n {
+        bad.push(format!("len()={}/iter={}", cfg.len(), n));
+    }
+    if cfg.is_empty() != (n == 0) {
+        bad.push(format!("is_empty()={}", cfg.is_empty()));
+    }
+    match guarded(|| cfg.entry_block().index()) {
+        Some(0) => {}
+        Some(i) => bad.push(format!("entry_block().index()={i}")),
+        None => bad.push("entry_block()-panics".to_string()),
+    }
+    if let (Some(first), Some(e)) = (cfg.iter().next(), guarded(|| cfg.entry_block().statements().len())) {
+        if first.statements().len() != e {
+            bad.push("entry_block()-is-not-the-first-block".to_string());
+        }
+    }
+    for (pos, b) in cfg.iter().enumerate() {
+        match cfg.get_basic_block(pos) {
+            Some(x) if x.index() == b.index() && x.statements().len() == b.statements().len() => {}
+            Some(x) => bad.push(format!("get_basic_block({pos}).index()={}", x.index())),
+            None => bad.push(format!("get_basic_block({pos})=None")),
+        }
+        if b.in_loop() != (b.loop_depth() > 0) {
+            bad.push(format!("B{pos}.in_loop()={}/depth={}", b.in_loop(), b.loop_depth()));
+        }
+        if b.len() != b.iter().count() || b.is_empty() != (b.iter().count() == 0) {
+            bad.push(format!("B{pos}.len()={}/iter={}", b.len(), b.iter().count()));
+        }
+    }
+    if cfg.get_basic_block(n).is_some() {
+        bad.push(format!("get_basic_block({n})=Some"));
+    }
+    if bad.is_empty() {
+        "ok".to_string()
+    } else {
+        bad.join(",")
+    }
 }
 
 fn list(v: &[usize]) -> String {
@@ -266,7 +348,7 @@ fn show_blocks(bs: &[Blk]) -> String {
                         Some(f) => format!("C{c}>{t}/{f}"),
                         None => format!("C{c}>{t}/-"),
                     },
-                    Item::Phi => "phi".to_string(),
+                    Item::Phi => "P".to_string(),
                 })
                 .collect::<Vec<_>>()
                 .join(" ");
@@ -306,17 +388,24 @@ fn cfg_line(src: &str, with_ssa: bool) -> String {
         Lifted::Panic => "cfg panic".to_string(),
         Lifted::Ok(cfg) => {
             let before = show_blocks(&blocks_of(&cfg));
+            let mut api = api_check(&cfg);
             if !with_ssa {
                 // into_ssa needs memory exponential in the if/else nesting
                 // depth; the driver skips it for deeply nested programs
-                return format!("cfg {before} # ssa skipped");
+                return format!("cfg {before} # ssa skipped # api {api}");
             }
             let after = match guarded(move || cfg.into_ssa()) {
                 None => "panic".to_string(),
                 Some(Err(_)) => "error".to_string(),
-                Some(Ok(ssa)) => show_blocks(&blocks_of(&ssa)),
+                Some(Ok(ssa)) => {
+                    let a2 = api_check(&ssa);
+                    if a2 != "ok" {
+                        api = if api == "ok" { format!("ssa:{a2}") } else { format!("{api},ssa:{a2}") };
+                    }
+                    show_blocks(&blocks_of(&ssa))
+                }
             };
-            format!("cfg {before} # ssa {after}")
+            format!("cfg {before} # ssa {after} # api {api}")
         }
     }
 }
@@ -435,6 +524,7 @@ fn main() {
             Some(src) => src,
             None => return "bad-line".to_string(),
         };
+        SOURCE.with(|s| *s.borrow_mut() = src.clone());
         match mode.as_str() {
             "cfg" => cfg_line(&src, true),
             "cfg-nossa" => cfg_line(&src, false),
